@@ -221,12 +221,33 @@ Theorem C09_matrix_zero_column_refines : forall p nr m c x, 0 <= c -> a_col m c 
 Proof. exact matrix_zero_column_refines. Qed.
 Print Assumptions C09_matrix_zero_column_refines.
 
+(* column container operations *)
+Theorem C09_matrix_swap_columns_refines : forall ra p nr m c1 c2 x1 x2, 0 <= c1 -> 0 <= c2 ->
+  a_col m c1 = Some x1 -> a_col m c2 = Some x2 ->
+  match a_swap_cols ra m c1 c2 with Some m' => Some (a_abs p nr m') = d_swap_cols (a_abs p nr m) c1 c2 | None => False end.
+Proof. exact matrix_swap_columns_refines. Qed.
+Print Assumptions C09_matrix_swap_columns_refines.
+
+Theorem C09_matrix_remove_refines : forall p nr m idx,
+  a_abs p nr (a_remove_col m idx) = d_remove_col (a_abs p nr m) idx /\
+  a_abs p nr (a_remove_last m) = d_remove_last (a_abs p nr m).
+Proof. exact matrix_remove_refines. Qed.
+Print Assumptions C09_matrix_remove_refines.
+
+(* insert_column at the end (the rows are ordered first; stated for the ordered matrix), every column kind *)
+Theorem C09_matrix_insert_refines : forall mapc kind p nr m es, 0 < p -> 0 <= a_next m ->
+  a_sw m = false -> a_i2r m = idperm nr -> sorted es -> rows_in nr es ->
+  a_abs p nr (a_insert (all_fixed false) mapc kind p m es) = d_insert mapc p nr (a_abs p nr m) es.
+Proof. exact matrix_insert_refines. Qed.
+Print Assumptions C09_matrix_insert_refines.
+
 (* ---- not proved; compared on every generated history by the correspondence check ---- *)
-(* missing: the same one-step refinement for insertion, removal and swap_columns, the emptiness tests of the lazy
-   column as a matrix-wide invariant (erased rows are stored rows), and the induction over whole histories *)
+(* missing: insert_column(column, index) with holes, the invariants (c_wf, c_ok, the dictionaries are inverse permutations,
+   erased rows are stored rows) as one matrix-wide invariant kept by every operation, and from it the induction over histories:
+   every observation of the algorithm model after any operation sequence equals the observation of the dense matrix *)
 Definition C09_matrix_history_refinement_full : Prop :=
-  forall p nr kind m es, prime p -> length (a_i2r m) = nr ->
-    a_abs p nr (a_insert (all_fixed false) false kind p m es) = d_insert false p nr (a_abs p nr m) es.
+  forall p nr kind m es idx, prime p -> length (a_i2r m) = nr -> a_col m idx = None ->
+    a_abs p nr (a_insert_at (all_fixed false) false kind p m idx es) = d_insert_at false p nr (a_abs p nr m) idx es.
 (* missing: the union-find model k_* against the class specification dk_* *)
 Definition C09_compression_eq_plain_full : Prop :=
   forall kind p nr es (k : kmat) (d : dmat),
